@@ -60,7 +60,7 @@ def run(ctx):
     for b in B.all_bindings():
         if b.name == 'GaussianMultivariate3cond':
             continue
-        want.append((b.name, {}, plans(b, quick)))
+        want.append((b.name, {'setup_past': 1}, plans(b, quick)))
     SJ.run_session_jobs(ctx, 'C14', want, 'harness.props.C14', ('FromDict', 'Load'))
     ctx.exhaustive = False
 
